@@ -172,7 +172,8 @@ def expected_items(items):
     for x in items:
         if x in ('POISON', 'UNPICKLABLE'):
             break
-        out.append(('r', x))
+        # ['T', v] = enqueue(v, tag='T'): a differently shaped input (keyword override of a default)
+        out.append(('r', x[1], x[0]) if isinstance(x, list) else ('r', x))
     return out
 
 
@@ -181,7 +182,7 @@ def expected_items(items):
 # --------------------------------------------------------------------------
 
 def _census_key(case):
-    return (case['kind'], case['scenario'], tuple(case.get('items', [])), bool(case.get('close')), case.get('rounds', 3),
+    return (case['kind'], case['scenario'], repr(case.get('items', [])), bool(case.get('close')), case.get('rounds', 3),
             case.get('inject', {}).get('granularity', 'line'), case.get('cls', ''))
 
 
@@ -280,7 +281,10 @@ def execute(case, ctx, cls=None, extra_kwargs=None, after_create=None):
             acc = 0
             for x in items:
                 try:
-                    bounded(w.enqueue, 10, x)
+                    if isinstance(x, list):
+                        bounded(w.enqueue, 10, x[1], tag=x[0])
+                    else:
+                        bounded(w.enqueue, 10, x)
                     acc += 1
                 except BaseException as e:
                     obs.setdefault('enqueue_errors', []).append(type(e).__name__)
